@@ -323,7 +323,7 @@ fn main() {
             cr
         }));
         // ---- random sessions (cenc, several objects, sources)
-        let n_rand = ctx.tier.pick(30_000usize, 600_000);
+        let n_rand = ctx.tier.pick(30_000usize, 2_000_000);
         gens.push(Gen::new("lattice", n_rand, move |ctx, i| {
             let mut rng = Rng::keyed(ctx.seed, "C08lat", 0, i as u64);
             let (spec, objs) = gen::gen_session(&mut rng, &gen::GenOpts::default());
